@@ -7,9 +7,9 @@ from props import lexcommon as LC
 from props import luagen
 
 ID = 'C07'
-GEN_FILES = ['T_lexer']
+GEN_FILES = ['T_lexer', 'T_pins_lexer']
 COQ_PROPERTY = 'theories/Properties/C07.vo'
-COQ_EXTRA = []
+COQ_EXTRA = ['theories/Proofs/LexerPins.vo']
 MODEL = ('ExC07', 'c07_main.ml')
 MONITOR = ('MonC07', 'c07_mon_main.ml')
 RULE = ('one evaluation = one source text lexed by the implementation as a single chunk AND as per-line chunks (and, '
